@@ -10,12 +10,14 @@ D=seeded/$ID-$N; mkdir -p $D
 cp $ROOT/$ID/out/$N.diff $D/patch.diff
 for f in $ROOT/$ID/out/${N}_demo.c $ROOT/$ID/out/${N}_demo.cpp; do [ -f $f ] && cp $f $D/$(basename $f | sed "s/^${N}_//"); done
 python3 - "$ID" "$N" "$ROUND" "$ROOT" "$res" <<'PY'
-import json,sys
+import json,sys,os
 ID,N,ROUND,ROOT,res=sys.argv[1:6]
+ORIGINS={"6":"round 6: told that generated testing incl. histories, faults, ownership states, capacities, magnitudes around powers of two and race detection is in place; asked for call sequences across API families, coincidences of common conditions, two cooperating sites, fault x shape combinations, odd wrap points",
+         "7":"round 7: told that all of rounds 1-6 is in place (incl. operands out of histories, touching buffers, well-known special values, characters beyond 255, locale, read-only shared inputs) and that thresholds / magic constants / narrowed types are not wanted any more; asked for SEMANTIC breaks where the checking logic is likely to look away: RFC- or browser-motivated behaviour changes, equivalent-but-different results, clauses that only seem to follow from others, state a text comparison cannot see, error paths"}
 try: notes=open(f"{ROOT}/{ID}/out/{N}.md").read()
 except Exception: notes=""
 meta={"id":f"{ID}-{N}","property":ID,"round":int(ROUND),
- "origin":"fresh sub-agent given only the property text and a scratch worktree of /repo (round 6: told that generated testing incl. histories, faults, ownership states, capacities, magnitudes around powers of two and race detection is in place; asked for call sequences across API families, coincidences of common conditions, two cooperating sites, fault x shape combinations, odd wrap points)",
+ "origin":"fresh sub-agent given only the property text and a scratch worktree of /repo (" + ORIGINS.get(ROUND, "round " + ROUND) + ")",
  "needs_to_manifest":notes,
  "confirmed_by_me":{"how":f"SEEDROOT={ROOT} tools/confirm_seed.sh {ID} {N}: fresh detached worktree of /repo HEAD; demo built with ASan+UBSan against pristine sources -> exit 0; patch applied with git apply; cmake+ninja build; ./testrunner -> 109 tests pass; demo rebuilt against patched sources -> non-zero. Result line: {res}","confirmed":True}}
 json.dump(meta,open(f"seeded/{ID}-{N}/meta.json","w"),indent=1)
